@@ -8,9 +8,11 @@ _must_cache = {}
 
 
 def must_of(fb, fn):
-    k = (id(fb), fn.key)
+    # keyed by the function OBJECT: several views of one function exist (the default inlined view, views with named
+    # helpers expanded) and their block numbering differs
+    k = (id(fb), fn.key, id(fn))
     m = _must_cache.get(k)
-    if m is None:
+    if m is None or m.fn is not fn:
         m = Must(fn, fb)
         _must_cache[k] = m
     return m
